@@ -2,6 +2,7 @@
 package oracle
 
 import (
+	"bytes"
 	"encoding/json"
 	"fmt"
 
@@ -240,6 +241,8 @@ func replyIsOutcome(r refrpc.Response, in Invocation) bool {
 		return r.IsError && r.Code == -32096
 	case in.Ret == "bad":
 		return r.IsError
+	case in.Ret == "rawnull":
+		return !r.IsError && string(bytes.TrimSpace(r.Result)) == "null"
 	}
 	return false
 }
